@@ -78,6 +78,29 @@ def run(ctx) -> None:
         one(ctx, x, st, ft, method, "rand", carrier=rng.choice(["arr", "list-none", "list-nan", "masked-finite"]))
 
     if ctx.shard == 0:
+        # very long series: spikes and missing values placed around powers of two (chunk boundaries of any blocked variant)
+        for n in (70001, ctx.pick(140000, 300000)):
+            x = [1013.25 + 0.25 * ((k * 7) % 5) for k in range(n)]
+            for b in (4096, 16384, 32768, 65536, 131072, 262144):
+                for off in (-1, 0, 1):
+                    if 1 <= b + off < n - 1:
+                        x[b + off] += rng.choice([3.0, -3.0, 8.0])
+                if b + 2 < n and rng.random() < 0.5:
+                    x[b + 2] = None
+            for method in ("average", "differential"):
+                one(ctx, x, 1.5, 5, method, f"huge{n}")
+        # float32 input whose values are float32-exact while their neighbour sums are not
+        for _ in range(40):
+            n = rng.choice([3, 4, 6, 9])
+            x = [float(2 ** 24 + 2 * rng.randrange(0, 6)) for _ in range(n)]
+            for method in ("average", "differential"):
+                st, ft = rng.choice([0.5, 1.0, 1.5]), rng.choice([2.5, 3.0])
+                kw = {"inp": np.array(x, dtype=np.float32), "suspect_threshold": st, "fail_threshold": ft, "method": method}
+                client.expect(ctx, "C09", "qartod.spike_test", kw, lambda: models.spike(x, st, ft, method),
+                              logical={"x": x, "suspect_threshold": st, "fail_threshold": ft, "method": method, "carrier": "float32"},
+                              hist=f"spike.{method}")
+                ctx.count("spike.calls")
+                ctx.case(f"f32-large|{method}|n{n}")
         for bad in ("Average", "avg", "", "diff", None, 3):
             o = client.invoke("qartod.spike_test", {"inp": np.array([1.0, 2.0, 1.0]), "suspect_threshold": 1,
                                                     "fail_threshold": 2, "method": bad})
